@@ -58,3 +58,21 @@ Example c14_on_core_nonvacuous :
   env_ok e && stmt_ok s && sshape s && stmt_ok (qual_stmt "dw" s) && sshape (qual_stmt "dw" s) = true
   /\ stmt_reads (analyze e false (r_stmt [] s)) = ["dw.a"; "x.b"].
 Proof. split; vm_compute; reflexivity. Qed.
+
+(** Column level.  On the specification, for ALL statements (Ast/QualifyCols.v): the column flows of the explicitly
+    qualified statement - under ANY default - are the flows of the statement under the default [ds]. *)
+From SV Require Import Ast.QualifyCols Tree.LemmaB Tree.LemmaBProofs Tree.LemmaBCorollaries.
+
+Theorem c14_spec_flows_default_is_qualification : forall ds0 ds s, ds <> "" ->
+  spec_flows ds0 (qual_stmt ds s) = spec_flows ds s.
+Proof. exact spec_flows_qualified_any_default. Qed.
+Print Assumptions c14_spec_flows_default_is_qualification.
+
+(** ... and on the tree model (whole pipeline, end-to-end column pairs) for the single-SELECT fragment of Lemma B; the
+    guards are needed on [s] only (they are preserved by qualification) *)
+Theorem c14_columns_default_is_qualification_on_single_select : forall n1 n2 e e0 s,
+  noise_ok n1 = true -> noise_ok n2 = true -> env_ok e = true -> env_ok e0 = true -> e_cfg e <> "" ->
+  stmt_ok s = true -> sshape s = true -> colshape s = true -> sel_tables_syntactic s = true ->
+  script_pairs e false [] [r_stmt n1 s] = script_pairs e0 false [] [r_stmt n2 (qual_stmt (e_cfg e) s)].
+Proof. exact cols_default_is_qualification_on_single_select_strong. Qed.
+Print Assumptions c14_columns_default_is_qualification_on_single_select.
